@@ -41,9 +41,17 @@ func controlCondsPol(b *ssa.BasicBlock) []ctrlCond {
 		if s0 == s1 {
 			continue
 		}
-		// the exit test of a loop does not control what follows the loop (the loop is left eventually)
+		// the exit test of a loop does not control what follows the loop (the loop is left eventually): the edge
+		// towards b leaves the loop.  (A block inside the loop that ends in a return does not reach d either, but
+		// the edge towards it stays inside the loop.)
 		if inCycle(d) && !reachesBlock(b, d) {
-			continue
+			lead := d.Succs[1]
+			if s0 {
+				lead = d.Succs[0]
+			}
+			if !reachesBlock(lead, d) {
+				continue
+			}
 		}
 		cond, taken := ifi.Cond, s0
 		for {
